@@ -298,6 +298,15 @@ Definition fill_field (rec : ltype -> Z -> pyval -> mem -> res mem) (off : Z)
     bind (get_new_array_length (lsize (item_of ft)) x) (fun lb => if snd lb then Ok m else go m)
   else go m.
 
+(* convert_array_from_object 1504-1524 (commit 812503f): an array item of var-sized struct type has
+   room for ct_size bytes only; its initialiser is run through the sizing pass first and refused
+   when it needs more *)
+Definition item_guard (fuel : nat) (item : ltype) (x : pyval) : res unit :=
+  if agg_var item && negb (is_cdata x) then
+    bind (size_struct fuel (agg_fields item) x (lsize item)) (fun n =>
+    if lsize item <? n then Err ValueError else Ok tt)
+  else Ok tt.
+
 (* filling pass: convert_from_object(data + off, t, init) *)
 Fixpoint fill (fuel : nat) (t : ltype) (off : Z) (v : pyval) (m : mem) : res mem :=
   match fuel with
@@ -305,7 +314,9 @@ Fixpoint fill (fuel : nat) (t : ltype) (off : Z) (v : pyval) (m : mem) : res mem
   | S fuel' =>
     match t with
     | LPrim k s => bind (conv_prim k s v) (fun bs => write off bs m)
-    | LArr item len => fill_array (fill fuel' item) item len off v m
+    | LArr item len =>
+        fill_array (fun off x m => bind (item_guard fuel' item x) (fun _ => fill fuel' item off x m))
+                   item len off v m
     | LAgg size var fs =>
         match v with
         | VCData true data _ =>
@@ -379,7 +390,7 @@ Fixpoint has_var (t : ltype) : bool :=
 
 (* layout facts the filling pass relies on (C01's subject; checked on every case by the harness):
    sizes positive, every fixed-size field inside its struct, a bit-field's unit inside its struct,
-   a flexible array starts inside, CT_WITH_VAR_ARRAY set where a member is var-sized *)
+   a flexible array starts inside, CT_WITH_VAR_ARRAY set where a member is a var-sized struct *)
 Fixpoint wf_type (t : ltype) : bool :=
   match t with
   | LPrim _ s => 0 <? s
@@ -394,13 +405,14 @@ Fixpoint wf_type (t : ltype) : bool :=
              (if is_flex ft then (off <=? size) && var && (shift <? 0)
               else off + lsize ft <=? size) &&
              (if 0 <=? shift then match ft with LPrim _ _ => true | _ => false end else true) &&
-             (if has_var ft then var else true) &&
+             (if agg_var ft then var else true) &&
              all fs'
          end) fs
   end.
 
-(* the hypothesis under which the sizing pass dominates the filling pass: no array (at any depth)
-   has var-sized structs as items.  cffi accepts such types; see C20_sizing_dominates_refuted. *)
+(* no array (at any depth) has var-sized structs as items.  Before commit 812503f this was the
+   hypothesis under which the sizing pass dominated the filling pass (cffi accepts such types and
+   used to overflow on them); with the guard above it is no longer needed. *)
 Fixpoint no_var_items (t : ltype) : bool :=
   match t with
   | LPrim _ _ => true
